@@ -170,7 +170,8 @@ func (l SSZLayout) ExpectedLimits() (byteMax, dynLen []int64, divide [][2]int64,
 type OffsetRead struct {
 	Lo, Hi     int64 // window of the fixed part the offset is read from
 	GtSize     bool  // compared `> size`
-	FirstConst int64 // compared `!= K` / `< K` (first-offset check); -1 if none
+	FirstConst int64 // compared `!= K` (first-offset check); -1 if none
+	FirstLoose bool  // the first offset is only bounded from below (`< K`): offsets past the fixed part pass
 	Monotone   bool  // compared `prev > this`
 }
 
@@ -286,6 +287,7 @@ func CensusDecoder(fn *ssa.Function) DecoderCensus {
 					}
 					if yConst && (op == token.NEQ || op == token.LSS) {
 						c.Offsets[i].FirstConst = k
+						c.Offsets[i].FirstLoose = op == token.LSS
 					}
 					if j, ok2 := offIdx(y); ok2 && op == token.LSS && j < i {
 						c.Offsets[i].Monotone = true // this < prev  <=> prev > this
